@@ -39,7 +39,17 @@ SatC(P, c, s) == LET t == CTuple(P, c, s) IN
                  IF c.alg \in CircuitAlgs THEN (IsPerm0(t) => IsCircuit(t)) ELSE Sat(c.alg, c.params, t)
 SatAll(P, s)   == \A q \in 1..NProp(P) : SatC(P, P.props[q], s)
 Solutions(P)   == {s \in TuplesOf(P.doms) : SatAll(P, s)}
-EntailedOn(P, c, box) == \A s \in TuplesOf(box) : Sat(c.alg, c.params, CTuple(P, c, s))
+\* every assignment of the box satisfies c - enumerated over the shared domains c really uses (the others are
+\* irrelevant); beyond EntailCap points the question is left open (no verdict rather than a guess)
+EntailCap == 20000
+DomsOf(P, c) == {DomOf(P, c.vars[k]) : k \in 1..Len(c.vars)}
+EntailedOn(P, c, box) ==
+  LET ds  == SetToSeq(DomsOf(P, c))
+      sub == [k \in 1..Len(ds) |-> box[ds[k]]]
+      pos(d) == CHOOSE k \in 1..Len(ds) : ds[k] = d
+  IN BoxSize(sub) > EntailCap \/
+     \A t \in TuplesOf(sub) :
+        Sat(c.alg, c.params, [k \in 1..Len(c.vars) |-> t[pos(DomOf(P, c.vars[k]))] + OffOf(P, c.vars[k])])
 
 VarSet(c) == {c.vars[k] : k \in 1..Len(c.vars)}
 WellFormed(P) ==
@@ -105,6 +115,7 @@ InitState(T) ==
    yielded |-> {},
    cnt     |-> [i \in 1..13 |-> 0],
    lvls    |-> 0,
+   shAlg   |-> 0,
    shOn    |-> FALSE, shBase |-> [box |-> <<>>, en |-> <<>>, base |-> <<>>], shN |-> 0,
    probe   |-> <<>>, pst |-> -1,
    hasInc  |-> FALSE, inc |-> <<>>,
@@ -144,7 +155,10 @@ PassBC(T, s, e) ==
         <<"C04:bounded",               nf <= PassBound(P)>>,
         <<"C03:searches-empty-box",    NonEmptyBox(e.in)>>,
         <<"C09:level",                 e.top = n - 1>>,
-        <<"C09:restores-box",          e.in = fr.box>>,
+        <<IF s.shOn /\ s.shAlg >= 2 THEN "C08:custom-algorithm-enlarges-a-domain" ELSE "C09:restores-box",
+                                       IF s.shOn /\ s.shAlg >= 2 THEN SubBox(e.in, fr.box) ELSE e.in = fr.box>>,
+        <<"C08:custom-algorithm-loses-a-solution",
+                                       ~(s.shOn /\ s.shAlg >= 2) \/ \A x \in s.sols : InBox(x, fr.box) => InBox(x, e.in)>>,
         <<"C07:restores-flags",        e.en = fr.en>>,
         <<"C07:disabled-but-not-entailed", ~NonEmptyBox(e.in) \/ BoxSize(e.in) > GfpCap \/ DisabledAreEntailed(P, e.en, e.in)>>,
         <<"C09:moved-bounds-not-announced-to-the-watchers", WatchersQueued(P, s, e.en, e.q0)>>,
@@ -167,6 +181,9 @@ PassBC(T, s, e) ==
 
 (* The whole shaving pass seen from outside (alg = 1); its nested events    *)
 (* have already been consumed one by one.                                   *)
+\* alg = 1: the shaving algorithm (C10); alg >= 2: a registered custom consistency algorithm that filters by itself and
+\* calls bound consistency (the shipped Golomb one): the same demands, reported under C08
+NN(e, x) == IF e.alg = 1 THEN "C10:" \o x ELSE "C08:custom-algorithm-" \o x
 PassShaving(T, s, e) ==
   LET P    == T.P
       n    == Len(s.frames)
@@ -176,18 +193,18 @@ PassShaving(T, s, e) ==
       gOn  == GfpApplicable(P) /\ NonEmptyBox(e.in) /\ BoxSize(e.in) <= GfpCap
       g    == IF gOn THEN Gfp(P, e.en, e.in) ELSE <<TRUE, e.in>>
       bad  == Failed(<<
-        <<"C10:pass-bracket",          s.shOn /\ n = s.shN>>,
-        <<"C10:top-preserved",         e.top2 = e.top /\ e.top = n - 1>>,
-        <<"C10:input",                 e.in = s.shBase.box /\ e.en = s.shBase.en>>,
-        <<"C10:output-is-current",     e.out = fr.box /\ e.en2 = fr.en>>,
-        <<"C10:shrinks",               ~ok \/ (SubBox(e.out, e.in) /\ NonEmptyBox(e.out))>>,
-        <<"C10:keeps-solutions",       IF ok THEN \A x \in live : InBox(x, e.out) ELSE live = {}>>,
-        <<"C10:inside-bc",             Len(e.bc) # 2 \/ (IF e.bc[1] = 0 THEN ~ok ELSE (~ok \/ SubBox(e.out, e.bc[2])))>>,
-        <<"C10:inside-gfp",            ~gOn \/ (IF g[1] THEN (~ok \/ SubBox(e.out, g[2])) ELSE ~ok)>>,
-        <<"C10:stack-untouched",       \A k \in 1..(n - 1) : k <= Len(e.stack) =>
+        <<NN(e, "pass-bracket"),          s.shOn /\ n = s.shN>>,
+        <<NN(e, "top-preserved"),         e.top2 = e.top /\ e.top = n - 1>>,
+        <<NN(e, "input"),                 e.in = s.shBase.box /\ e.en = s.shBase.en>>,
+        <<NN(e, "output-is-current"),     e.out = fr.box /\ e.en2 = fr.en>>,
+        <<NN(e, "shrinks"),               ~ok \/ (SubBox(e.out, e.in) /\ NonEmptyBox(e.out))>>,
+        <<NN(e, "keeps-solutions"),       IF ok THEN \A x \in live : InBox(x, e.out) ELSE live = {}>>,
+        <<NN(e, "inside-bc"),             Len(e.bc) # 2 \/ (IF e.bc[1] = 0 THEN ~ok ELSE (~ok \/ SubBox(e.out, e.bc[2])))>>,
+        <<NN(e, "inside-gfp"),            ~gOn \/ (IF g[1] THEN (~ok \/ SubBox(e.out, g[2])) ELSE ~ok)>>,
+        <<NN(e, "stack-untouched"),       \A k \in 1..(n - 1) : k <= Len(e.stack) =>
                                           (e.stack[k] = s.frames[k].box /\ e.ens[k] = s.frames[k].en)>>,
         <<"C01:solved-iff-ground",     ~ok \/ ((e.st = 2) <=> IsPoint(e.out))>>,
-        <<"C10:fixpoint",              \A i \in 1..Len(e.probes) : e.probes[i][2] \in {1, 2} /\
+        <<NN(e, "fixpoint"),              \A i \in 1..Len(e.probes) : e.probes[i][2] \in {1, 2} /\
                                           (e.probes[i][3] \/ P.props[e.probes[i][1] + 1].alg = "no_sub_cycle")>>,
         <<"C17:stats-exact",           e.stats = s.cnt>>
       >>)
@@ -200,7 +217,8 @@ ShaveStart(T, s, e) ==
         <<"C07:restores-flags", e.en = fr.en>>,
         <<"C09:moved-bounds-not-announced-to-the-watchers", WatchersQueued(T.P, s, e.en, e.q0)>>,
         <<"C03:searches-empty-box", NonEmptyBox(e.in)>> >>)
-  IN << [s EXCEPT !.wake = <<0, 0>>, !.shOn = TRUE, !.shBase = fr, !.shN = Len(s.frames), !.cnt = Inc(@, SHPASS)], bad >>
+  IN << [s EXCEPT !.wake = <<0, 0>>, !.shOn = TRUE, !.shAlg = e.alg, !.shBase = fr, !.shN = Len(s.frames),
+                  !.cnt = IF e.alg = 1 THEN Inc(@, SHPASS) ELSE @], bad >>
 
 (* A branching decision (search: d = 0; shaving probe: d = 1).              *)
 Branch(T, s, e) ==
@@ -328,7 +346,7 @@ Raised(T, s, e) ==
 Step(T, s, e) ==
   IF s.over /\ ~(e.k = "X" /\ IsCapacityError(e)) THEN << [s EXCEPT !.over = FALSE], {"C19:continues-above-the-configured-height"} >> ELSE
   CASE e.k = "P" /\ e.alg = 0 -> PassBC(T, s, e)
-    [] e.k = "P" /\ e.alg = 1 -> PassShaving(T, s, e)
+    [] e.k = "P" /\ e.alg >= 1 -> PassShaving(T, s, e)
     [] e.k = "S" -> ShaveStart(T, s, e)
     [] e.k = "V" -> VarChoice(T, s, e)
     [] e.k = "B" -> Branch(T, s, e)
